@@ -16,13 +16,13 @@ LITERALS = {
 }
 
 MUTATORS = {
-    "int": ["{a} += 1", "++{a}", "{a} = 9", "{a} *= 2", "{a} -= 4", "--{a}", "{a} %= 2", "{a} <<= 1"],
-    "double": ["{a} += 0.5", "{a} = 2.25", "{a} *= 2.0", "{a} /= 4.0"],
-    "bool": ["{a} = !{a}", "{a} = false", "{a} = true"],
-    "string": ['{a} += "x"', "{a}.push_back('z')", "{a}.clear()", '{a} = "q"', "{a}[0] = 'q'", '{a}.insert(0, "I")', "{a}.erase(0, 1)"],
+    "int": ["{a} += 1", "++{a}", "{a} = 9", "{a} := 9", "{a} := p + 1", "{a} *= 2", "{a} -= 4", "--{a}", "{a} %= 2", "{a} <<= 1"],
+    "double": ["{a} += 0.5", "{a} = 2.25", "{a} := 2.25", "{a} *= 2.0", "{a} /= 4.0"],
+    "bool": ["{a} = !{a}", "{a} = false", "{a} = true", "{a} := false", "{a} := !{a}"],
+    "string": ['{a} += "x"', '{a} := "q"', "{a}.push_back('z')", "{a}.clear()", '{a} = "q"', "{a}[0] = 'q'", '{a}.insert(0, "I")', "{a}.erase(0, 1)"],
     "char": ["{a} = 'q'"],
-    "vector": ["{a}.push_back(9)", "{a}[0] = 9", "{a}.clear()", "{a}.pop_back()", "{a}[0] += 1", "{a}.push_back_ref(p)", "{a} = [7]", "{a}.resize(1)", "{a}[0].push_back(5)"],
-    "map": ['{a}["k"] = 5', "{a}.clear()", '{a}["a"] += 1', '{a}["a"] = 0', '{a}.erase("a")', '{a}["a"].push_back(3)'],
+    "vector": ["{a}.push_back(9)", "{a}[0] = 9", "{a} := [7]", "{a}[0] := 9", "{a}.clear()", "{a}.pop_back()", "{a}[0] += 1", "{a}.push_back_ref(p)", "{a} = [7]", "{a}.resize(1)", "{a}[0].push_back(5)"],
+    "map": ['{a}["k"] = 5', '{a}["a"] := 5', '{a} := ["z": 1]', "{a}.clear()", '{a}["a"] += 1', '{a}["a"] = 0', '{a}.erase("a")', '{a}["a"].push_back(3)'],
     "range": ["{a}.push_back(9)", "{a}[0] = 9", "{a}.clear()"],
 }
 
